@@ -26,7 +26,7 @@ CLAIMS = {
          'append, filter-before-output, truncation marking agreement over sinks, back-end re-framing guards, roll-over/disable ordering, no re-logging from sinks, record completeness (every formatter prints every field; thread id and time obtained in the call itself), level clamped into the level tables (interval abstract interpretation), async record framing exact at both boundaries, text handled iff text_len >= 1, sink registration sentinel, cached time-stamp text rebuilt exactly when the seconds differ (finite folding), a batch is never continued after the file was closed', '§4 C09',
          'lockset + who-may-call + CFG path rules over clang AST/CFG'),
  'C10': ('A1 pairwise common-lock race freedom with producer/backend/owner roles and thread phases, whole-append critical section incl. every external '
-         'appendLockless caller, one critical section for a whole datum, FIFO hand-over and reset-after-callback, back-pressure guards, cleanup/quit-path flush order, acyclic lock order and no wait-for cycle (no role blocks on a mutex another role holds while waiting for it), chunk-copy arithmetic of the pipe buffer by linear forms per reaching definition (inside block and datum, min(request, free), size_ advanced by what was copied), chunk loop runs exactly while the remainder is > 0, stop flag tested under the lock before every backend wait, relative counters of initialize() reset by cleanup()', '§4 C10, §10.7',
+         'appendLockless caller, one critical section for a whole datum, FIFO hand-over and reset-after-callback, back-pressure guards, cleanup/quit-path flush order, acyclic lock order and no wait-for cycle (no role blocks on a mutex another role holds while waiting for it), chunk-copy arithmetic of the pipe buffer by linear forms per reaching definition (inside block and datum, min(request, free), size_ advanced by what was copied), chunk loop runs exactly while the remainder is > 0, stop flag tested under the lock before every backend wait, relative counters of initialize() reset by cleanup(), a queued full buffer is announced to the backend before the producer can block for a free one (may-dataflow; flag-carried announcements understood)', '§4 C10, §10.7',
          'lockset + lock-order + CFG path rules over clang AST/CFG'),
  'C11': ('hook-balance on every path of initialize/start (own hook matched by state advance or rollback, children rolled back in reverse), gated single '
          'stop/cleanup hooks, pre-order/reverse-order iteration (reverse iterators or down-counting index), required-only abort read off branch edges, every child swept unconditionally by stop/cleanup, stop()/cleanup() refuse only on the module\'s own state, Main()/Start()/Stop() sequencing', '§4 C11',
@@ -34,7 +34,7 @@ CLAIMS = {
 }
 CLAIMS.update({
  'C02': ('A13 heap-protocol typestate of timer_min_heap_ over every function touching it (HEAP at exits/user callbacks/front reads, one comparator ordering by '
-         'deadline), not-before-deadline guard, fresh-interval / re-arm-by-interval data dependence, callback copied before recycling and no use after it, '
+         'deadline), not-before-deadline test folded with C type widths over deadlines up to 2^33 ms either side (reached exactly when now >= expired), fresh-interval / re-arm-by-interval data dependence, callback copied before recycling and no use after it, '
          'synchronous token free + deferred record free, one-shot ordering, TimerEventImpl enabled<=>registered, deadline base is a pure fresh clock reading, synchronous disable() before any deferred TimerEvent delete, every path of initialize()/destructor disables an enabled timer, repeat-count protocol replayed (r invocations then removal, 0 never; one-shot=1, persistent=0)', '§4 C02',
          'typestate dataflow (heap protocol) + CFG path rules + finite folding/replay of counter tests over clang AST/CFG'),
  'C06': ('write-arming invariant (running and queued => write event armed) decided at every state-changing site, remainder arithmetic shape of send(), '
